@@ -9,7 +9,7 @@ use ppv::mon::*;
 use piecewise_polynomial::*;
 use serde_json::json;
 
-fn one<T: Nums + Evaluate>(m: &mut Mon, sink: &mut Sink, r: &mut Rng, log: bool) {
+fn one<T: Nums + Evaluate + Send + 'static>(m: &mut Mon, sink: &mut Sink, r: &mut Rng, log: bool) {
     let (x, xc) = if log { arg_log(r) } else { arg_poly(r) };
     let (c, cc) = coeff_vec(r, T::LEN, if log { x.ln() } else { x });
     let p = T::from_nums(&c);
@@ -18,7 +18,17 @@ fn one<T: Nums + Evaluate>(m: &mut Mon, sink: &mut Sink, r: &mut Rng, log: bool)
     m.count(&format!("coeffs:{}", cc));
     m.count(&format!("arg:{}", xc));
     let hh = hash_bits(1, c.iter().map(|e| e.to_bits()).chain([x.to_bits(), T::LEN as u64, log as u64]));
-    match guard(|| p.evaluate(x)) {
+    // 1 in 16: the evaluation is the first thing a brand-new thread does (state kept per thread, lazily initialised
+    // tables or memos start pristine there)
+    let fresh = r.below(16) == 0;
+    let res = if fresh {
+        m.count("evaluated_on_fresh_thread");
+        let q = p.clone();
+        guard(move || std::thread::spawn(move || q.evaluate(x)).join().map_err(|_| ()).expect("library panic on a fresh thread"))
+    } else {
+        guard(|| p.evaluate(x))
+    };
+    match res {
         Err(pn) => m.panic("evaluate panic", &pn, || json!({"form": T::NAME, "c": hxs(&c), "x": hx(x)})),
         Ok(v) => sink.emit(json!({"t": "ev", "form": T::NAME, "log": log, "c": hs(&c), "x": h(x), "r": h(v), "h": hh, "cc": cc, "xc": xc})),
     }
@@ -64,7 +74,7 @@ fn canaries(sink: &mut Sink) {
 pub const FLOORS: &[&str] = &[
     "exact_class", "bounded_class", "form:PolyN", "polyn_len:0", "form:Poly0", "form:Poly8", "form:Log<Poly0>", "form:Log<Poly8>",
     "coeffs:one_hot", "coeffs:cancelling", "coeffs:alternating", "arg:negative", "arg:fractional", "arg:large", "arg:small", "arg:zero",
-    "arg:v_ulps_of_one", "arg:v_in_0_1", "arg:v_huge", "arg:v_tiny",
+    "arg:v_ulps_of_one", "arg:v_in_0_1", "arg:v_huge", "arg:v_tiny", "arg:v_subnormal", "evaluated_on_fresh_thread",
 ];
 
 pub fn drive(a: &Args, m: &mut Mon, sink: &mut Sink) {
